@@ -198,8 +198,10 @@ def runModel (st : St) (q : Stmt) (having : List HTok) : String :=
   | none => "err"
   | some gs =>
     let qgs : List QGraph := gs.map fun g => { g := g, uni := st.triple }
-    if !q.filters.isEmpty then "unsupported" else
-    match processPattern F qgs q.clauses { lower := q.lower, upper := q.upper } q.pushedLimit (fun _ => none) with
+    match organizeFilters q.filters q.clauses with
+    | .error e => errClass e
+    | .ok fs =>
+    match processPattern F qgs q.clauses { lower := q.lower, upper := q.upper } q.pushedLimit (filterForOf fs) with
     | .error e => errClass e
     | .ok tbl =>
       -- projection / grouping
@@ -248,10 +250,28 @@ def runSpec (st : St) (q : Stmt) (having : List HTok) : String :=
   match q.graphs.mapM (fun n => (st.graphs.find? (·.1 == n)).map (·.2)) with
   | none => "err"
   | some gs =>
-    if !q.filters.isEmpty then "unsupported" else
+    -- FILTER: `isTemporal` / `isImmutable` keep the triples whose predicate (or predicate-valued object) is of that kind;
+    -- `latest` is defined per driver look-up (what the candidates are depends on the evaluation strategy): no reference
+    match organizeFilters q.filters q.clauses with
+    | .error _ => "err"
+    | .ok fs =>
+    if fs.any (fun p => p.2.op == .latest) then "unsupported" else
     let scan : List Triple := gs.flatMap fun g => g.master.filterMap fun v => st.triple v.id
     if boundsUndefined scan (q.lower.map (·.nanos)) (q.upper.map (·.nanos)) q.clauses then "unsupported" else
-    let sols := solutionsO scan (q.lower.map (·.nanos)) (q.upper.map (·.nanos)) q.clauses
+    let keeps : Clause → Triple → Bool := fun c t =>
+      match filterForOf fs c with
+      | none => true
+      | some fo =>
+        let kind : Option Bool := match fo.field with      -- some true: temporal, some false: immutable
+          | .predicate => some t.p.anchor.isSome
+          | .object => (match t.o with | .pred p => some p.anchor.isSome | _ => none)
+          | _ => none
+        (match fo.op with
+         | .isTemporal => kind == some true
+         | .isImmutable => kind == some false
+         | _ => true)
+    let sols := q.clauses.foldl (fun rows c =>
+      joinClauseO (scan.filter (keeps c)) (q.lower.map (·.nanos)) (q.upper.map (·.nanos)) rows c) [[]]
     let cols := dedup q.outputBindings
     let staged : Except QErr (List Row) :=
       if q.groupBy.isEmpty then .ok (sols.map (project q.projs)) else groupReduceWith sumExact S floatAddBits q sols
